@@ -32,7 +32,7 @@ func collectLabels(stmts []Stmt, out *[]*Atom) {
 }
 
 // closedOracle asserts the four clauses of C04 on every variant's output.
-func closedOracle(entryNames func() []interp.Value, userLabels func() []*Atom, coded bool) func(x *OracleCtx) *Violation {
+func closedOracle(entryNames func() []interp.Value, userLabels func() []*Atom, _ bool) func(x *OracleCtx) *Violation {
 	return func(x *OracleCtx) *Violation {
 		names := entryNames()
 		isEntry := func(name interp.Value) bool {
@@ -51,7 +51,7 @@ func closedOracle(entryNames func() []interp.Value, userLabels func() []*Atom, c
 			if res.Err.IsErr {
 				return &Violation{Sub: "accept", Msg: "variant " + v.Name + ": an accepted program was rejected: " + interp.ToString(res.Err.Msg)}
 			}
-			ag := BuildAsmGraphLenient(x.C, res.Out, isEntry, coded)
+			ag := BuildAsmGraphLenient(x.C, res.Out, isEntry, x.Case.Prog.Atoms.Coded)
 			// (i) every label defined once
 			for i, a := range ag.LabelDef {
 				for _, b := range ag.LabelDef[i+1:] {
